@@ -21,6 +21,7 @@ import (
 	"io"
 	"strings"
 	"testing/iotest"
+	"time"
 
 	"github.com/notaryproject/notation-core-go/signature"
 	"github.com/notaryproject/notation-go"
@@ -143,6 +144,25 @@ func main() {
 			for ti, ct := range []string{lib.PayloadType + "; charset=utf-8", strings.Replace(lib.PayloadType, "+json", "+JSON", 1), "Application/Vnd.CNCF.Notary.Payload.V1+json", lib.PayloadType + ";version=2", "application/vnd.in-toto+json", lib.PayloadType + " "} {
 				if raw, err := lib.CoreSign(lib.SignSpec{Format: f, Scheme: signature.SigningScheme(scheme), Payload: lib.Payload(artA.Desc), ContentType: ct, Signer: good}); err == nil { // (COSE cannot carry every spelling)
 					pool = append(pool, env{fmt.Sprintf("fresh-near-miss-payload-type-%d|%s|%s", ti, f, scheme), f, raw})
+				}
+			}
+			// the payload is the Notary document for the artifact FOLLOWED by more (a second document for another artifact,
+			// or bytes): validly signed, and not a Notary payload
+			for ti, tail := range []string{string(lib.Payload(artB.Desc)), " trailing bytes", "{}"} {
+				pl := append(append([]byte{}, lib.Payload(artA.Desc)...), tail...)
+				var raw []byte
+				func() {
+					defer func() { recover() }()
+					if f == lib.MediaJWS {
+						raw = lib.HandSign(lib.HandSpec{Format: f, Scheme: scheme, Payload: pl, Signer: good, SigningTime: time.Now().Add(-time.Hour)})
+					} else {
+						raw = lib.MustCoreSign(lib.SignSpec{Format: f, Scheme: signature.SigningScheme(scheme), Payload: pl, Signer: good})
+					}
+				}()
+				if raw != nil {
+					if _, err := lib.RefVerify(f, raw); err == nil {
+						pool = append(pool, env{fmt.Sprintf("fresh-payload-with-trailing-data-%d|%s|%s", ti, f, scheme), f, raw})
+					}
 				}
 			}
 			pool = append(pool, env{"fresh-payload-without-target|" + f + "|" + scheme, f, lib.MustCoreSign(lib.SignSpec{Format: f, Scheme: signature.SigningScheme(scheme), Payload: []byte(`{}`), Signer: good})})
@@ -268,8 +288,8 @@ func main() {
 	}
 	levels := lib.AllLevelMaps()
 	presentsOCI := []string{"A", "B", "A-digest", "A-size", "A-mediaType", "A-mediaType-empty", "A-annotations"}
-	presentsBlob := []string{"A", "B", "A-byte", "A-length", "A-mt-unstated", "A-mt-different", "A-mt-different-B"}
-	metaReqs := []string{"none", "subset", "exact", "value-changed", "extra-key", "empty-value-missing-key", "none", "none"}
+	presentsBlob := []string{"A", "B", "A-byte", "A-length", "A-mt-unstated", "A-mt-different", "A-mt-different-B", "A-mt-parameterised"}
+	metaReqs := []string{"none", "subset", "exact", "value-changed", "extra-key", "empty-value-missing-key", "reserved-prefixed-missing", "reserved-prefixed-next-to-satisfied", "none", "none"}
 	var cases []caseT
 	rngC := r.Rand("cases")
 	nCases := r.N(60000, 3000000)
@@ -322,6 +342,10 @@ func main() {
 			req = map[string]string{"buildId": "101", "approved": "yes"}
 		case "empty-value-missing-key":
 			req = map[string]string{"approved": ""}
+		case "reserved-prefixed-missing": // a required pair is a required pair, whatever its key looks like
+			req = map[string]string{"io.cncf.notary.releasedBy": "ci"}
+		case "reserved-prefixed-next-to-satisfied":
+			req = map[string]string{"buildId": "101", "io.cncf.notary.x": "y"}
 		}
 		// ---- presentation
 		a := arts[c.Present[:1]]
@@ -349,6 +373,8 @@ func main() {
 			blobMTStated = false
 		case "A-mt-different", "A-mt-different-B":
 			statedMT = "text/plain"
+		case "A-mt-parameterised":
+			statedMT = blobMT(c.Present, a)
 		}
 		_ = statedMT
 		var outcome *notation.VerificationOutcome
@@ -482,6 +508,9 @@ func blobMT(present string, a struct {
 }) string {
 	if present == "A-mt-different" || present == "A-mt-different-B" {
 		return "text/plain"
+	}
+	if present == "A-mt-parameterised" {
+		return a.Desc.MediaType + "; charset=utf-8" // the same type WITH a parameter is another media type string
 	}
 	return a.Desc.MediaType
 }
